@@ -153,6 +153,8 @@ func toHandler(rng *rand.Rand, sc *sim.Scenario, o *requestOpts) {
 	}
 	c.Paris = false
 	addRequestFlows(rng, sc, o, p)
+	// the usual spellings of a boolean in a query string (drawn apart from the scenario's own stream)
+	c.BoolStyle = pick(rand.New(rand.NewPCG(uint64(sc.Knobs.RandSeed), 43)), 0, 0, 0, 1, 1, 2, 3)
 }
 
 func bareTarget(t string) string {
